@@ -681,11 +681,13 @@ func (fr *frame) loopArrive() {
 		return
 	}
 	pure := !ls.impure && len(phis) == len(ls.phiVals) && len(phis) > 0
+	fresh := 0
 	if pure {
 		for k, v := range phis {
 			if sameScalar(v, ls.phiVals[k]) {
 				continue
 			}
+			fresh++
 			s, ok := v.(symInt)
 			if !ok || s.t.op != OpVar {
 				pure = false
@@ -698,7 +700,9 @@ func (fr *frame) loopArrive() {
 			}
 		}
 	}
-	if pure {
+	// (an iteration that changes nothing at all is a genuine endless loop, not
+	// a subsumed one: it is left to the step limit)
+	if pure && fresh > 0 {
 		ls.pureRun++
 	} else {
 		ls.pureRun = 0
@@ -741,8 +745,13 @@ func (px *pathCtx) symIndex(t *Term) (int, bool) {
 func (fr *frame) markImpure(instr ssa.Instruction) {
 	imp := false
 	switch in := instr.(type) {
-	case *ssa.Store, *ssa.MapUpdate, *ssa.Defer, *ssa.RunDefers, *ssa.Go, *ssa.Send, *ssa.Panic:
+	case *ssa.Store, *ssa.MapUpdate, *ssa.Defer, *ssa.RunDefers, *ssa.Go, *ssa.Send, *ssa.Panic, *ssa.Next, *ssa.Select:
+		// (Next advances a range iterator: state that no phi shows)
 		imp = true
+	case *ssa.UnOp:
+		if in.Op == token.ARROW {
+			imp = true
+		}
 	case *ssa.Call:
 		imp = true
 		if c := in.Call.StaticCallee(); c != nil && fnMetaOf(c).name == "(*golang.org/x/exp/rand.PCGSource).Uint64" {
